@@ -129,6 +129,7 @@ class Server:
             self.env.update(env)
         self.proc = None
         self.t0 = None
+        self.probe = "/pid"                 # what start() asks for until the server answers
 
     def rewrite_config(self, text):
         with open(self.cfgfile, "w") as f:
@@ -167,7 +168,7 @@ class Server:
             if not self.daemon and self.proc.poll() is not None:
                 raise RuntimeError("gunicorn exited at start with %s: %s" % (self.proc.returncode, self.errlog()[-2000:]))
             try:
-                st, body, _ = self.get("/pid", timeout=1.0)
+                st, body, _ = self.get(self.probe, timeout=1.0)
                 if st == 200:
                     return self
             except OSError:
